@@ -11,6 +11,7 @@ TSAN_ENV = {
 _G = ['-g', '-fno-omit-frame-pointer']
 VARIANTS = {
     'plain':      dict(cc='g++', flags=['-std=c++11', '-O2'] + _G),
+    'plain20':    dict(cc='g++', flags=['-std=c++20', '-O2'] + _G),
     'plain17':    dict(cc='g++', flags=['-std=c++17', '-O2'] + _G),
     'asan':       dict(cc='g++', flags=['-std=c++11', '-O1', '-fsanitize=address,undefined', '-fno-sanitize-recover=all'] + _G, env=ASAN_ENV),
     'asan17':     dict(cc='g++', flags=['-std=c++17', '-O1', '-fsanitize=address,undefined', '-fno-sanitize-recover=all'] + _G, env=ASAN_ENV),
@@ -152,11 +153,12 @@ CHECKS['C06'] = dict(
     rule='generated scenarios: 1-4 producers x 10-80 uniquely numbered events, 1-4 consumers each with its own random mix of process/processOne/processIf/processUntil/takeEvent/peekEvent/'
          'clearEvents, on EventQueue with std::list and OrderedQueueList, std::mutex and SpinLock, all through an injected Threading policy (MonMutex/MonAtomic/MonCV) that perturbs the schedule at '
          'every lock/unlock/atomic operation/unlocked emptiness check/critical section: off, random, or one targeted window (tag x role x n-th visit) widened by 100-1000us; per-event atomic state '
-         'machine (CAS: a second consumption is caught at once), conservation after the final drain, payload checksum, FIFO for single-consumer runs without selective predicates, lock-cycle watchdog; '
+         'machine (CAS: a second consumption is caught at once), conservation after the final drain, payload checksum, FIFO for single-consumer runs without selective predicates, watchdog that reports lock cycles and threads that stay blocked on a lock nobody holds; a C++20 build as well (library code guarded by feature-test macros, e.g. in SpinLock, only exists there); '
          'ThreadSanitizer build with instrumented std::list primitives (documented unlocked reads bracketed); distinct_nontrivial = distinct lock-acquisition-order hashes observed (plain builds)',
     jobs=[J('drv_queue_mt', 'plain', 'c06', 8000, 160000, shards=8, shards_thorough=16),
           J('drv_queue_mt', 'tsan', 'c06', 800, 12000, seed_offset=1, shards=8, shards_thorough=16),
-          J('drv_queue_mt', 'asan', 'c06', 1600, 20000, seed_offset=2, shards=8, shards_thorough=16)],
+          J('drv_queue_mt', 'asan', 'c06', 1600, 20000, seed_offset=2, shards=8, shards_thorough=16),
+          J('drv_queue_mt', 'plain20', 'c06', 2400, 40000, seed_offset=3, shards=8, shards_thorough=16)],
     assumptions=['x86-TSO only', 'schedules reached by perturbation, not enumerated', 'HeterEventQueue concurrent runs not included yet'],
     technique='stress + seeded schedule perturbation through the injected Threading policy and guarded preemption points; exactly-once ledger (CAS state machine) + conservation + FIFO oracles; ThreadSanitizer with list shim; ASan',
     level_text='Exploration: thousands of multi-threaded runs with deliberately widened race windows; every consumption is recorded by compare-and-swap so duplication is caught at the event, loss at the drain; '
@@ -173,9 +175,10 @@ CHECKS['C07'] = dict(
          'waiter list (no spurious wake-ups), schedule perturbation off/random/targeted (waiter delayed between predicate and blocking, enqueuer delayed after the counter decrement, ...), half of the '
          'parking scenarios follow a template aimed at the window named in the statement; a fifth of them add a third thread that keeps taking the pending events out and putting them back '
          '(processIf declining everything / processUntil stopping at once) while the enqueuer is delayed after releasing the queue mutex and between its unlocked reads; verdicts from state at quiescence (enqueuers joined, every waiter in the waiter list): events pending + '
-         'notification enabled => lost wake-up; wait() covered by one DisableQueueNotify lifetime must not return; waitFor false only after its timeout; wait/true only after some enqueue began; '
+         'notification enabled => lost wake-up; the notification state belongs to the queue object: the single-threaded C10 queue programs copy and move queues whose source has live DisableQueueNotify objects and check waitFor on the new queue; wait() covered by one DisableQueueNotify lifetime must not return; waitFor false only after its timeout; wait/true only after some enqueue began; '
          'distinct_nontrivial = distinct lock-order hashes',
-    jobs=[J('drv_wait', 'plain', '', 10000, 200000, shards=8, shards_thorough=16), J('drv_wait', 'tsan', '', 1200, 16000, seed_offset=1, shards=8, shards_thorough=16)],
+    jobs=[J('drv_wait', 'plain', '', 10000, 200000, shards=8, shards_thorough=16), J('drv_wait', 'tsan', '', 1200, 16000, seed_offset=1, shards=8, shards_thorough=16),
+          J('drv_queue', 'asan', 'c10', 2000, 60000, defs=['-DVF_CFG_MASK=0x03'], seed_offset=2, shards=4)],
     assumptions=['liveness restated as a state verdict at quiescence (DESIGN §5 C07)', 'fairness among several waiters is not checked'],
     technique='stress with targeted schedule perturbation through injected Mutex/Atomic/ConditionVariable policies; parked-waiter state oracle; interval (tick) oracle; TSan',
     level_text='Exploration: thousands of scenarios, each with one race window deliberately widened; the lost-wake-up verdict is read from the condition variable\'s waiter list once nobody is left to notify.',
